@@ -159,14 +159,7 @@ func (vt *Model) ich(ps int) {
 		if int(col)+i >= (vt.width() - 1) {
 			break
 		}
-		line[col+column(i)] = cell{
-			Cell: vaxis.Cell{
-				Character: vaxis.Character{
-					Grapheme: " ",
-					Width:    1,
-				},
-			},
-		}
+		line[col+column(i)].erase(vt.cursor.Style.Background)
 	}
 }
 
